@@ -84,6 +84,8 @@ def explain(path):
                     i, op[1], op[4] if len(op) > 4 else "SimAbort", op[2] / 10000.0, op[3] if len(op) > 3 else "any"))
             elif k == "stack_compute":
                 out.append("%2d: engine[%d].compute()   # FAULT: recursion limit = depth + %d" % (i, op[1], op[2]))
+            elif k == "write_option":
+                out.append("%2d: engine[%d].options[%r] = %r   # written directly, no set_options()" % (i, op[1], op[2], op[3]))
             elif k == "rewidth":
                 out.append("%2d: labels of set %d are re-measured: new widths on the existing objects" % (i, op[1]))
             elif k == "inspect":
@@ -109,6 +111,8 @@ def explain(path):
                 out.append("%2d: tl[%d].export(%r%s)%s" % (i, op[1], op[2], ", build_pdf=True" if op[3] else "", f))
             elif k == "replace":
                 out.append("%2d: slot %d gets a new spec: %s" % (i, op[1], _opts(op[2])[:300]))
+            elif k == "tweak":
+                out.append("%2d: tl[%d].options[%r] = %r" % (i, op[1], op[2], op[3]))
             elif k == "poke":
                 out.append("%2d: tl[%d]: helpers called and attributes read (get_nodes, compute, timePos, scale getters, ticks)" % (i, op[1]))
             elif k == "clock_advance":
